@@ -6,6 +6,10 @@
  *   d <hex>      parse the document with options 0..3; output "r0 | r1 | r2 | r3" where
  *                r = "ok <dump>" or "err <class>" (or "pooldiff …" when the result depends
  *                on the pool's initial size)
+ *   s <hex> ...  the documents parsed one after the other on ONE JsonContext per option set
+ *                (json_parse resets the parser itself; a context is reused after successes and
+ *                after failures); output "a0 ; b0 ; ... | a1 ; b1 ; ... | ..." (one group per
+ *                option set); every result is dumped before the next parse
  *   f <hex>      strtod on the NUL-terminated token: "<bits hex> <consumed>"
  *   #case        echo
  * `h --time` prints wall-clock parse times for the linear-time clause.
@@ -181,6 +185,65 @@ static void op_d(const char *hex)
 	free(doc);
 }
 
+/* one parse on an existing context; result text appended to ob */
+static void parse_on(struct JsonContext *ctx, const uint8_t *doc, size_t len)
+{
+	struct JsonValue *v;
+	uint8_t *copy = malloc(len ? len : 1);
+	memcpy(copy, doc, len);
+	v = json_parse(ctx, (const char *)copy, len);
+	if (v) {
+		ob_puts("ok ");
+		if (json_strerror(ctx)) ob_puts("?lasterr-set ");
+		dump_val(v);
+	} else {
+		ob_puts("err ");
+		ob_puts(err_class(json_strerror(ctx)));
+	}
+	free(copy);
+}
+
+#define MAXSEQ 62
+static void op_s(char **hex, int n)
+{
+	uint8_t *doc[MAXSEQ];
+	long len[MAXSEQ];
+	unsigned opts;
+	int i, p;
+	char *first = NULL;
+	for (i = 0; i < n; i++) {
+		len[i] = hc_unhex(hex[i], &doc[i]);
+		if (len[i] < 0) { while (i--) free(doc[i]); puts("bad-op"); return; }
+	}
+	for (opts = 0; opts < 4; opts++) {
+		bool diff = false;
+		for (p = 0; p < 4; p++) {
+			struct JsonContext *ctx = json_new_context(NULL, POOLS[p]);
+			ob_reset();
+			ob_put("", 0);
+			json_set_options(ctx, opts);
+			for (i = 0; i < n; i++) {
+				if (i) ob_puts(" ; ");
+				parse_on(ctx, doc[i], len[i]);
+			}
+			json_free_context(ctx);
+			if (p == 0) {
+				free(first);
+				first = strdup(ob);
+			} else if (strcmp(first, ob) != 0) {
+				diff = true;
+				break;
+			}
+		}
+		if (opts) fputs(" | ", stdout);
+		if (diff) printf("pooldiff pool0: %s pool%zu: %s", first, POOLS[p], ob);
+		else fputs(first, stdout);
+	}
+	fputc('\n', stdout);
+	free(first);
+	for (i = 0; i < n; i++) free(doc[i]);
+}
+
 static void op_f(const char *hex)
 {
 	uint8_t *tok;
@@ -256,11 +319,12 @@ int main(int argc, char **argv)
 	if (argc > 1 && strcmp(argv[1], "--time") == 0)
 		return timing();
 	while ((line = hc_line()) != NULL) {
-		char *w[4];
+		char *w[MAXSEQ + 2];
 		int n;
 		if (strcmp(line, "#case") == 0) { puts("#case"); continue; }
-		n = hc_words(line, w, 4);
+		n = hc_words(line, w, MAXSEQ + 2);
 		if (n == 2 && strcmp(w[0], "d") == 0) op_d(w[1]);
+		else if (n >= 2 && n <= MAXSEQ + 1 && strcmp(w[0], "s") == 0) op_s(w + 1, n - 1);
 		else if (n == 2 && strcmp(w[0], "f") == 0) op_f(w[1]);
 		else puts("bad-op");
 	}
